@@ -10,6 +10,7 @@ package objects
 import (
 	"bytes"
 	"compress/gzip"
+	"fmt"
 
 	"github.com/pkg/errors"
 
@@ -291,14 +292,30 @@ func (t *MessageContainer) MarshalTL(e *tl.Encoder) error {
 
 func (t *MessageContainer) UnmarshalTL(d *tl.Decoder) error {
 	count := int(d.PopInt())
-	arr := make([]*messages.Encrypted, count)
+	if err := d.CheckErr(); err != nil {
+		return errors.Wrap(err, "reading count of messages in container")
+	}
+	if count < 0 {
+		return fmt.Errorf("negative count of messages in container: %v", count)
+	}
+
+	arr := make([]*messages.Encrypted, 0)
 	for i := 0; i < count; i++ {
 		msg := new(messages.Encrypted)
 		msg.MsgID = d.PopLong()
 		msg.SeqNo = d.PopInt()
 		size := d.PopInt()
+		if err := d.CheckErr(); err != nil {
+			return errors.Wrapf(err, "reading header of message %v in container", i)
+		}
+		if size < 0 {
+			return fmt.Errorf("negative size of message %v in container: %v", i, size)
+		}
 		msg.Msg = d.PopRawBytes(int(size))
-		arr[i] = msg
+		if err := d.CheckErr(); err != nil {
+			return errors.Wrapf(err, "reading body of message %v in container", i)
+		}
+		arr = append(arr, msg)
 	}
 	*t = arr
 
